@@ -234,11 +234,16 @@ class EngineOutOfSync(SnmpError):
     """
 
 
-class UnknownEngineId(EngineOutOfSync):
+class UnknownEngineId(SnmpError):
     """
     This exception is raised when the remote engine does not recognise the
     engine-id we are sending (f.ex. because the discovery response was
-    corrupted, or the device was replaced or reconfigured).
+    corrupted, or the device was replaced or reconfigured), or when a message
+    arrives from an engine this client never discovered.
+
+    This is deliberately *not* an :py:class:`~.EngineOutOfSync` error: neither
+    case is authenticated, so it must not make the client discover a new
+    engine on its own. Create a new client instead.
     """
 
 
@@ -250,6 +255,11 @@ class NotInTimeWindow(EngineOutOfSync):
         `RFC-3414 - Section 3.2 - Processing an Incoming SNMP Message <https://tools.ietf.org/html/rfc3414#section-3.2>`_
             Reference description on how to handle incoming messages.
     """
+
+    #: The engine boots/time of the reporting engine (taken from the security
+    #: parameters of the report) if they can be trusted.
+    engine_boots: Optional[int] = None
+    engine_time: Optional[int] = None
 
     def __init__(self, oid: str, value: int, reporting: str) -> None:
         super().__init__(
